@@ -253,6 +253,103 @@ func onlyFailureExits(b *ssa.BasicBlock, pred *ssa.BasicBlock) bool {
 	return true
 }
 
+// coExecuted: the two events run together on every successful path: in their
+// lowest common frame the two call sites (or the events themselves) are mutually
+// must (one dominates the other and the later one is on every path from the
+// earlier one to a success exit), and below the common frame every step is a
+// must call whose error is propagated.
+func coExecuted(a, b *Event) bool {
+	chain := func(e *Event) []*Frame {
+		var c []*Frame
+		for f := e.Fr; f != nil; f = f.Parent {
+			c = append([]*Frame{f}, c...)
+		}
+		return c
+	}
+	ca, cb := chain(a), chain(b)
+	i := 0
+	for i < len(ca) && i < len(cb) && ca[i] == cb[i] {
+		i++
+	}
+	if i == 0 {
+		return false
+	}
+	sa, sb := siteOf(ca, i, a), siteOf(cb, i, b)
+	if sa == nil || sb == nil {
+		return false
+	}
+	if !mustBelow(ca, i, a) || !mustBelow(cb, i, b) {
+		return false
+	}
+	return mutualMust(sa, sb)
+}
+
+func siteOf(chain []*Frame, i int, e *Event) ssa.Instruction {
+	if i >= len(chain) {
+		return e.Site
+	}
+	if chain[i].Call != nil {
+		return chain[i].Call
+	}
+	if chain[i].MC != nil {
+		return chain[i].MC
+	}
+	return nil
+}
+
+func mustBelow(chain []*Frame, i int, e *Event) bool {
+	for j := i; j < len(chain); j++ {
+		var s ssa.Instruction
+		if j+1 < len(chain) {
+			if chain[j+1].Call == nil {
+				return false
+			}
+			s = chain[j+1].Call
+		} else {
+			s = e.Site
+		}
+		if !siteMust(s) {
+			return false
+		}
+		if chain[j].Call == nil || !errorPropagated(chain[j].Call) {
+			return false
+		}
+	}
+	return true
+}
+
+// mutualMust: s1 and s2 are in one function, one dominates the other, and the
+// later one lies on every path from the earlier one to a success exit.
+func mutualMust(s1, s2 ssa.Instruction) bool {
+	if s1.Parent() != s2.Parent() {
+		return false
+	}
+	first, second := s1, s2
+	if s1.Block() == s2.Block() {
+		if instrIndex(s2) < instrIndex(s1) {
+			first, second = s2, s1
+		}
+		return true && first != nil && second != nil
+	}
+	if s2.Block().Dominates(s1.Block()) {
+		first, second = s2, s1
+	} else if !s1.Block().Dominates(s2.Block()) {
+		return false
+	}
+	f := first.Parent()
+	// from the successors of first's block, every path to a success exit passes second
+	for _, succ := range first.Block().Succs {
+		if !mustPassFrom(f, succ, func(x ssa.Instruction) bool { return x == second }, nil) {
+			// the edge may be the failing edge of first's own error test
+			if onlyFailureExits(succ, first.Block()) {
+				continue
+			}
+			return false
+		}
+	}
+	return true
+}
+
 // FactsAt: all branch facts (as loose term strings) that hold when `site` in
 // frame fr executes: dominating facts in every frame of the chain plus facts
 // implied by guard-function calls that succeeded.
